@@ -214,9 +214,9 @@ func cmdCheck(args []string) int {
 		return 2
 	}
 	defer b.cleanup()
-	timeout := 25 * time.Second
+	timeout := 60 * time.Second
 	if *tier == "thorough" {
-		timeout = 120 * time.Second
+		timeout = 180 * time.Second
 	}
 	rn := newRunner(b, timeout)
 
